@@ -452,7 +452,7 @@ func (r *Resolver) onStructLike(g *Scope, name string, t *parser.Type, v *parser
 		}
 
 		if NeedRedirect(f) {
-			if f.Type.Category.IsBaseType() {
+			if IsBaseType(f.Type) { // like NeedRedirect, this counts enums as base types
 				// a trick to create pointers without temporary variables
 				val = fmt.Sprintf("(&struct{x %s}{%s}).x", typ, val)
 			}
